@@ -1,6 +1,7 @@
 """C45 MJX dynamics have correct gradients.
 
-For every model of a small smooth alphabet (contact-free, steadily-constrained, steadily-in-contact) and every state of
+For every model of a small smooth alphabet (contact-free, steadily-constrained, steadily-in-contact; mass distribution
+{every body massive, massless marker leaf = zero SUBTREE mass, massless frame body with a massive child}) and every state of
 a smooth lattice, the Jacobian of five scalar probes of forward()/step() with respect to
 (qpos tangent, qvel, ctrl, act, body_mass, dof_damping, actuator gain) obtained from JAX autodiff
 (reverse mode = what jax.grad uses; forward mode where reverse mode is undefined) must be finite and equal to
@@ -350,8 +351,10 @@ def run(ctx):
     ctx.extra["max_err_over_tol"] = {k: float("%.3g" % v) for k, v in sorted(mg.stats.items())}
     ctx.extra["violation_keys"] = sorted(k for k, _, _ in ctx.violations)
     ctx.extra["known_finding_keys"] = sorted(k for k, _ in ctx.known_hits)
+    ctx.extra["massless_marker_items"] = sum(1 for it in items if ";massless-" in it["name"])
     ctx.rule = ("%d (model, autodiff mode) items: contact-free forests (all joint types) with springs/dampers/tendons/actuators/"
-                "sensors, steadily-active limit+frictionloss+connect models, steadily-in-contact scenes; per item a lattice of "
+                "sensors x mass distribution {all bodies massive, massless site-only leaf body (subtree mass 0), massless frame body "
+                "with a massive jointless child} (rotating over the forests; thorough: full product on the first two), steadily-active limit+frictionloss+connect models, steadily-in-contact scenes; per item a lattice of "
                 "smooth states (qpos lattice x {0, mixed} qvel x in-range ctrl x act); per state 5 probes x 7 parameter blocks "
                 "(qpos tangent, qvel, ctrl, act, body_mass, dof_damping, actuator gain), every coordinate differenced. "
                 "non-trivial = each (model, mode, block, state)." % len(items))
